@@ -146,6 +146,10 @@ class SOpt(Sym):
 
 _obj_ids = itertools.count(1)
 
+# per-path registries used by the await rule (reset by engine.run_path)
+LIVE_FUTURES = []
+LIVE_EXT = []
+
 
 class SObj:
     """Engine-level record with identity.  `cls` is the live class (or an ExtClass)."""
@@ -158,6 +162,8 @@ class SObj:
         self.oid = next(_obj_ids)
         self.frozen = frozen
         self.tag = tag
+        if isinstance(cls, ExtClass):
+            LIVE_EXT.append(self)
 
     def __repr__(self):
         n = getattr(self.cls, "__name__", str(self.cls))
@@ -220,6 +226,7 @@ class SFuture:
         self.ghost = dict(ghost or {})
         self.callbacks = []
         self.fresh_in_call = False
+        LIVE_FUTURES.append(self)
 
     def __repr__(self):
         return f"<Future#{self.oid} state={self.state}>"
